@@ -185,12 +185,22 @@ var skipInRange = map[string]string{
 	"test:benchmark":                       "runs a timed loop",
 }
 
+// defensive: process-control names that do not exist in the pinned tree but would end or fork the worker
+var dangerousName = regexp.MustCompile(`^(exit|quit|bye|halt|kill|shutdown|reboot|fork|exec|spawn|daemon|shell|system)($|-)`)
+
+func neverCall(id, name string) bool {
+	if _, skip := skipAlways[id]; skip {
+		return true
+	}
+	return dangerousName.MatchString(name)
+}
+
 // ---------------------------------------------------------------- enumeration
 
 func enumerateB(tier string, emit func(string)) {
 	for _, fn := range allFuncs() {
 		id := fn.pkg + ":" + fn.name
-		if _, skip := skipAlways[id]; skip {
+		if neverCall(id, fn.name) {
 			continue
 		}
 		r := parseDoc(fn.fi.Doc, rmNone)
@@ -378,7 +388,7 @@ func execB(spec string) (res engine.Result) {
 		return
 	}
 	id := fn.pkg + ":" + fn.name
-	if _, skip := skipAlways[id]; skip {
+	if neverCall(id, fn.name) {
 		res.Outcome = "skipped"
 		return
 	}
